@@ -220,6 +220,14 @@ func TestReplay(t *testing.T) {
 	if err != nil {
 		t.Fatal(err)
 	}
+	if r.Test == "TestSequences" {
+		var c SeqCase
+		if err := json.Unmarshal(r.Case, &c); err != nil {
+			t.Fatal(err)
+		}
+		checkSeq(t, c)
+		return
+	}
 	var c Case
 	if err := json.Unmarshal(r.Case, &c); err != nil {
 		t.Fatal(err)
